@@ -39,8 +39,8 @@ def auto_recognised(spec):
 
 def judge(ctx, c, yaml, yatiml, label):
     """compare the real outcome with the reference pipeline; returns True if compared"""
-    if c.node is None or getattr(c, 'shared', False):
-        ctx.count('oracle_skip:unparseable-or-shared')
+    if c.node is None:
+        ctx.count('oracle_skip:unparseable')
         return False
     node = c.node
     if getattr(c, 'empty', False):
@@ -140,7 +140,34 @@ def explore(ctx):
     yaml, yatiml = L.setup()
     rng = ctx.rng
     cases = []
-    for c in LC.gen_cases(ctx, ctx.budget(600, 15000), mutate_p=0.55, model_filter=auto_recognised, prop='C02'):
+    import itertools
+    from props import c17
+    for c in itertools.chain(
+            LC.gen_cases(ctx, ctx.budget(600, 15000), mutate_p=0.55, model_filter=auto_recognised, prop='C02'),
+            LC.alias_across_types(ctx, ctx.budget(40, 800))):
+        # an application-tagged scalar / mapping among the extra attributes of a class that takes them
+        if c.doc is not None and rng.random() < 0.25 and not (c.desc and c.desc[0] == 'alias-across-types'):
+            by = {x['name']: x for x in c.spec}
+            try:
+                maps = [p for p in c17.class_map_paths(c.spec, c.doc, c.doc_type)]
+            except Exception:  # noqa
+                maps = []
+            if maps:
+                p = rng.choice(maps)
+                m = G.get_at_path(c.doc, p)
+                val = rng.choice([('s', '12', False, '!Ident'), ('s', '1.5', False, '!whatever'),
+                                  ('s', 'true', False, '!Ident'), ('s', '~', False, '!x'),
+                                  ('m', [(G.S('k'), ('s', '7', False, '!Ident'))], '!Thing'),
+                                  ('q', [('s', '2001-01-01', False, '!d')], None)])
+                doc2 = G.replace_at(c.doc, p, lambda d: ('m', list(m[1]) + [(G.S('zextra'), val)], m[2]))
+                try:
+                    c2 = L.build_case(rng, yaml, yatiml, c.spec, c.doc_type, doc2, ('tagged-extra', p))
+                    L.run_case(c2, yaml)
+                    c = c2
+                    ctx.count('tagged_extra_cases')
+                except Exception:  # noqa
+                    ctx.count('rebuild_error')
+            del by
         cases.append(c)
         LC.record_distribution(ctx, c)
         ctx.case((c.text, repr(c.doc_type), repr([x['name'] for x in c.spec])),
